@@ -42,3 +42,21 @@ package ddata
 //@   ghost entry lww_de_err = nil
 //@   at call 1 of invoke Deserialize ghost lww_de_err = result1
 //@   ensures rebuilds-the-causal-metadata: lww_de_err == nil && pb != nil ==> result0 != nil && result0.timestamp == pb.TimestampNanos && result0.nodeID == pb.NodeId
+
+// observed-remove set / multi-value register: the vector clock travels verbatim
+// (also for an emptied set: the clock is what makes a peer drop removed
+// elements) and every entry is carried
+//@ func encodeORSetEntries(entries, clock, serializer)
+//@   loop 1 invariant one-wire-entry-per-entry: -1 <= rangeindex && rangeindex < len(entries) && len(pbEntries) == rangeindex + 1
+//@   loop 2 invariant dots-in-range: -1 <= rangeindex && rangeindex < len(e.Dots) && len(pbDots) == len(e.Dots)
+//@   ensures clock-travels-verbatim: result1 == nil ==> result0 != nil && result0.Clock == clock
+//@   ensures every-entry-carried: result1 == nil ==> len(result0.Entries) == len(entries)
+
+//@ ghost local mv_clock map[string]uint64
+//@ ghost local mv_n int
+//@ func encodeMVRegister(r, serializer)
+//@   at call 1 of (*MVRegister).RawState ghost mv_clock = result1
+//@   at call 1 of (*MVRegister).RawState ghost mv_n = len(result0)
+//@   loop 1 invariant one-wire-entry-per-entry: -1 <= rangeindex && rangeindex < len(entries) && len(pbEntries) == rangeindex + 1 && mv_n == len(entries)
+//@   ensures clock-travels-verbatim: result1 == nil ==> result0 != nil && result0.Clock == mv_clock
+//@   ensures every-entry-carried: result1 == nil ==> len(result0.Entries) == mv_n
